@@ -61,9 +61,14 @@ Section Count.
 
   Lemma count_nil p : count p [] = 0. Proof. reflexivity. Qed.
   Lemma count_cons p x l : count p (x :: l) = b2z (p x) + count p l.
-  Proof. unfold count. simpl. destruct (p x); simpl; lia. Qed.
+  Proof.
+    unfold count, b2z. cbn [filter]. destruct (p x); [cbn [length]; rewrite Nat2Z.inj_succ|]; lia.
+  Qed.
   Lemma count_app p l1 l2 : count p (l1 ++ l2) = count p l1 + count p l2.
-  Proof. induction l1 as [|x l1 IH]; [unfold count; simpl; lia|]. simpl. rewrite !count_cons, IH. lia. Qed.
+  Proof.
+    induction l1 as [|x l1 IH]; [rewrite count_nil; simpl; lia|].
+    rewrite <- app_comm_cons, !count_cons, IH. lia.
+  Qed.
   Lemma count_nonneg p l : 0 <= count p l.
   Proof. unfold count. lia. Qed.
 
@@ -95,7 +100,7 @@ Section Count.
   Lemma existsb_eqb_In x l : existsb (eqb x) l = true <-> In x l.
   Proof.
     rewrite existsb_exists. split.
-    - intros [y [Hin Heq]]. apply eqb_true_iff in Heq. subst. exact Hin.
+    - intros [y [Hin Heq]]. apply (proj1 (eqb_true_iff x y)) in Heq. subst. exact Hin.
     - intros Hin. exists x. split; [exact Hin|apply eqb_refl].
   Qed.
 End Count.
@@ -142,6 +147,15 @@ Proof.
     rewrite count_remove by assumption. simpl. rewrite Z.eqb_sym. reflexivity.
 Qed.
 
+Lemma NoDup_snoc {A} (x : A) l : NoDup l -> ~ In x l -> NoDup (l ++ [x]).
+Proof.
+  intros Hnd Hn. induction Hnd as [|y l Hy Hnd IH]; simpl.
+  - constructor; [simpl; tauto|constructor].
+  - constructor.
+    + rewrite in_app_iff. simpl. intros [H1|[H2|[]]]; [contradiction|]. subst. apply Hn. left. reflexivity.
+    + apply IH. intros Hin. apply Hn. right. exact Hin.
+Qed.
+
 Lemma set_owner_spec s c t a :
   OwnInv s -> get (c, t) (owners s) = None ->
   let s1 := set_owner c t a s in
@@ -158,6 +172,345 @@ Proof.
     apply existsb_eqb_In in He. contradiction. }
   rewrite Hadd.
   split; [split|].
-  - simpl. apply NoDup_app_intro.
-  - idtac.
-Abort.
+  - simpl. apply NoDup_snoc; assumption.
+  - intros a' c' t'. simpl. rewrite in_app_iff, Hidx, get_set. simpl.
+    destruct (eq_dec (c', t') (c, t)) as [Heq|Hne].
+    + inversion Heq; subst. split.
+      * intros [Hg|[He|[]]]; [congruence|]. inversion He; reflexivity.
+      * intros Hs. inversion Hs; subst. right. left. reflexivity.
+    + split.
+      * intros [Hg|[He|[]]]; [exact Hg|]. inversion He; subst. exfalso. apply Hne. reflexivity.
+      * intros Hg. left. exact Hg.
+  - split; [apply get_set_same|].
+    split; [intros k Hk; apply get_set_other; exact Hk|].
+    split; [|auto].
+    intros c'. rewrite !n_index_eq. simpl. rewrite count_app, count_cons, count_nil. simpl. lia.
+Qed.
+
+Lemma getz_set {K} `{EqDec K} (k k' : K) v (m : amap K Z) :
+  getz k' (set k v m) = if eq_dec k' k then v else getz k' m.
+Proof. unfold getz. rewrite get_set. destruct (eq_dec k' k); reflexivity. Qed.
+
+(** ** the invariant of the x/nft stores *)
+Definition Inv (s : state) : Prop :=
+  OwnInv s
+  /\ NoDup (keys (nfts s))
+  /\ (forall k, get k (nfts s) <> None <-> get k (owners s) <> None)
+  /\ (forall c, total_supply s c = n_tokens s c)
+  /\ (forall c, n_index s c = n_tokens s c)
+  /\ (forall c t, get (c, t) (nfts s) <> None -> get c (classes s) <> None)
+  /\ (forall k a, get k (owners s) = Some a -> 0 <= a).
+
+Lemma Inv_init : Inv init.
+Proof.
+  unfold Inv, OwnInv, init. simpl. repeat split; try constructor; try tauto; try discriminate; try congruence.
+Qed.
+
+Definition mint_state c t m a s :=
+  let s2 := set_owner c t a (with_nfts s (set (c, t) m (nfts s))) in
+  with_supply s2 (set c (total_supply s2 c + 1) (supply s2)).
+Definition burn_state c t s :=
+  let s2 := delete_owner c t (get_owner s c t) (with_nfts s (del (c, t) (nfts s))) in
+  with_supply s2 (set c (udec (total_supply s2 c)) (supply s2)).
+Definition transfer_state c t a s := set_owner c t a (delete_owner c t (get_owner s c t) s).
+
+Lemma nk_mint_unfold c t m a s s' : nk_mint c t m a s = Some s' ->
+  get c (classes s) <> None /\ get (c, t) (nfts s) = None /\ s' = mint_state c t m a s.
+Proof.
+  unfold nk_mint, has_class, has_nft. destruct (has c (classes s)) eqn:Hc; simpl; [|discriminate].
+  destruct (has (c, t) (nfts s)) eqn:Ht; [discriminate|]. intros Heq. inversion Heq.
+  apply has_true in Hc. apply has_false in Ht. auto.
+Qed.
+Lemma nk_burn_unfold c t s s' : nk_burn c t s = Some s' ->
+  get c (classes s) <> None /\ get (c, t) (nfts s) <> None /\ s' = burn_state c t s.
+Proof.
+  unfold nk_burn, has_class, has_nft. destruct (has c (classes s)) eqn:Hc; simpl; [|discriminate].
+  destruct (has (c, t) (nfts s)) eqn:Ht; simpl; [|discriminate]. intros Heq. inversion Heq.
+  apply has_true in Hc. apply has_true in Ht. auto.
+Qed.
+Lemma nk_update_unfold c t m s s' : nk_update c t m s = Some s' ->
+  get c (classes s) <> None /\ get (c, t) (nfts s) <> None /\ s' = with_nfts s (set (c, t) m (nfts s)).
+Proof.
+  unfold nk_update, has_class, has_nft. destruct (has c (classes s)) eqn:Hc; simpl; [|discriminate].
+  destruct (has (c, t) (nfts s)) eqn:Ht; simpl; [|discriminate]. intros Heq. inversion Heq.
+  apply has_true in Hc. apply has_true in Ht. auto.
+Qed.
+Lemma nk_transfer_unfold c t a s s' : nk_transfer c t a s = Some s' ->
+  get c (classes s) <> None /\ get (c, t) (nfts s) <> None /\ s' = transfer_state c t a s.
+Proof.
+  unfold nk_transfer, has_class, has_nft. destruct (has c (classes s)) eqn:Hc; simpl; [|discriminate].
+  destruct (has (c, t) (nfts s)) eqn:Ht; simpl; [|discriminate]. intros Heq. inversion Heq.
+  apply has_true in Hc. apply has_true in Ht. auto.
+Qed.
+
+Lemma absent_iff {A B} (x : option A) (y : option B) : (x <> None <-> y <> None) -> x = None -> y = None.
+Proof. destruct x, y; intros [H1 H2] Hx; try reflexivity; try discriminate. exfalso. apply H2; [discriminate|reflexivity]. Qed.
+Lemma present_iff {A B} (x : option A) (y : option B) : (x <> None <-> y <> None) -> x <> None -> exists v, y = Some v.
+Proof. destruct y as [v|]; intros [H1 _] Hx; [exists v; reflexivity|]. exfalso. apply (H1 Hx). reflexivity. Qed.
+
+Lemma n_tokens_set_absent s k m c' :
+  get k (nfts s) = None ->
+  count (fun k0 : cid * tid => fst k0 =? c') (keys (set k m (nfts s))) = n_tokens s c' + b2z (fst k =? c').
+Proof. intros Hg. rewrite keys_set_absent by exact Hg. rewrite count_app, count_cons, count_nil. unfold n_tokens. lia. Qed.
+
+Lemma mint_inv c t m a s : Inv s -> 0 <= a -> get c (classes s) <> None -> get (c, t) (nfts s) = None ->
+  Inv (mint_state c t m a s).
+Proof.
+  intros (HO & Hnd & Hiff & Hsup & Hidx & Hcls & Hrng) Ha Hc Ht.
+  set (s1 := with_nfts s (set (c, t) m (nfts s))).
+  assert (HO1 : OwnInv s1) by exact HO.
+  assert (Hown : get (c, t) (owners s1) = None) by (apply (absent_iff _ _ (Hiff (c, t))); exact Ht).
+  destruct (set_owner_spec s1 c t a HO1 Hown) as (HO2 & Hg2 & Hf2 & Hn2 & Hnf2 & Hcl2 & Hsp2).
+  unfold mint_state. fold s1. set (s2 := set_owner c t a s1) in *. clearbody s2.
+  unfold Inv. simpl.
+  split; [exact HO2|].
+  split; [rewrite Hnf2; simpl; apply keys_set_NoDup; exact Hnd|].
+  split.
+  { intros k. rewrite Hnf2. simpl. rewrite get_set. destruct (eq_dec k (c, t)) as [->|Hne].
+    - rewrite Hg2. split; discriminate.
+    - rewrite (Hf2 k Hne). apply Hiff. }
+  split.
+  { intros c'. unfold total_supply, n_tokens. simpl. rewrite getz_set, Hnf2, Hsp2. simpl.
+    rewrite n_tokens_set_absent by exact Ht. simpl. fold (total_supply s c'). fold (total_supply s c).
+    destruct (eq_dec c' c) as [->|Hne].
+    - rewrite Z.eqb_refl, Hsup. simpl. lia.
+    - assert (Hf : c =? c' = false) by (apply Z.eqb_neq; congruence). rewrite Hf, Hsup. simpl. lia. }
+  split.
+  { intros c'. unfold n_tokens. cbn [nfts with_supply]. rewrite Hnf2. simpl. rewrite n_tokens_set_absent by exact Ht.
+    change (n_index (with_supply s2 (set c (total_supply s2 c + 1) (supply s2))) c') with (n_index s2 c').
+    rewrite Hn2. change (n_index s1 c') with (n_index s c'). rewrite Hidx. simpl. lia. }
+  split.
+  { intros c' t'. rewrite Hnf2, Hcl2. simpl. rewrite get_set. destruct (eq_dec (c', t') (c, t)) as [Heq|Hne].
+    - inversion Heq; subst. intros _. exact Hc.
+    - apply Hcls. }
+  intros k a'. destruct (eq_dec k (c, t)) as [->|Hne].
+  - rewrite Hg2. intros Heq. inversion Heq; subst. exact Ha.
+  - rewrite (Hf2 k Hne). apply Hrng.
+Qed.
+
+Lemma burn_inv c t s : Inv s -> get (c, t) (nfts s) <> None -> Inv (burn_state c t s).
+Proof.
+  intros (HO & Hnd & Hiff & Hsup & Hidx & Hcls & Hrng) Ht.
+  destruct (present_iff _ _ (Hiff (c, t)) Ht) as [o Ho].
+  set (s1 := with_nfts s (del (c, t) (nfts s))).
+  assert (HO1 : OwnInv s1) by exact HO.
+  assert (Ho1 : get (c, t) (owners s1) = Some o) by exact Ho.
+  destruct (delete_owner_spec s1 c t o HO1 Ho1) as (HO2 & Hg2 & Hf2 & Hn2 & Hnf2 & Hcl2 & Hsp2).
+  unfold burn_state. unfold get_owner. rewrite Ho. fold s1.
+  set (s2 := delete_owner c t (Some o) s1) in *. clearbody s2.
+  assert (Hin : In (c, t) (keys (nfts s))) by (apply get_in_keys; exact Ht).
+  assert (Hcnt : forall c', count (fun k0 : cid * tid => fst k0 =? c') (keys (del (c, t) (nfts s))) = n_tokens s c' - b2z (c =? c')).
+  { intros c'. rewrite keys_del. unfold n_tokens. rewrite count_remove by assumption. reflexivity. }
+  unfold Inv. simpl.
+  split; [exact HO2|].
+  split; [rewrite Hnf2; simpl; rewrite keys_del; apply NoDup_filter; exact Hnd|].
+  split.
+  { intros k. rewrite Hnf2. simpl. rewrite get_del. destruct (eq_dec k (c, t)) as [->|Hne].
+    - rewrite Hg2. tauto.
+    - rewrite (Hf2 k Hne). apply Hiff. }
+  split.
+  { intros c'. unfold total_supply, n_tokens. simpl. rewrite getz_set, Hnf2, Hsp2. simpl.
+    rewrite Hcnt. fold (total_supply s c'). fold (total_supply s c).
+    destruct (eq_dec c' c) as [->|Hne].
+    - rewrite Z.eqb_refl, Hsup. simpl.
+      pose proof (count_nonneg (fun k0 : cid * tid => fst k0 =? c) (keys (del (c, t) (nfts s)))) as Hnn.
+      rewrite Hcnt, Z.eqb_refl in Hnn. simpl in Hnn. unfold udec.
+      destruct (n_tokens s c =? 0) eqn:Hz; [apply Z.eqb_eq in Hz; lia|lia].
+    - assert (Hf : c =? c' = false) by (apply Z.eqb_neq; congruence). rewrite Hf, Hsup. simpl. lia. }
+  split.
+  { intros c'. unfold n_tokens. cbn [nfts with_supply]. rewrite Hnf2. simpl. rewrite Hcnt.
+    change (n_index (with_supply s2 (set c (udec (total_supply s2 c)) (supply s2))) c') with (n_index s2 c').
+    rewrite Hn2. change (n_index s1 c') with (n_index s c'). rewrite Hidx. reflexivity. }
+  split.
+  { intros c' t'. rewrite Hnf2, Hcl2. simpl. rewrite get_del. destruct (eq_dec (c', t') (c, t)) as [Heq|Hne].
+    - congruence.
+    - apply Hcls. }
+  intros k a'. destruct (eq_dec k (c, t)) as [->|Hne].
+  - rewrite Hg2. discriminate.
+  - rewrite (Hf2 k Hne). apply Hrng.
+Qed.
+
+Lemma transfer_inv c t a s : Inv s -> 0 <= a -> get (c, t) (nfts s) <> None -> Inv (transfer_state c t a s).
+Proof.
+  intros (HO & Hnd & Hiff & Hsup & Hidx & Hcls & Hrng) Ha Ht.
+  destruct (present_iff _ _ (Hiff (c, t)) Ht) as [o Ho].
+  destruct (delete_owner_spec s c t o HO Ho) as (HO1 & Hg1 & Hf1 & Hn1 & Hnf1 & Hcl1 & Hsp1).
+  unfold transfer_state, get_owner. rewrite Ho.
+  set (s1 := delete_owner c t (Some o) s) in *. clearbody s1.
+  destruct (set_owner_spec s1 c t a HO1 Hg1) as (HO2 & Hg2 & Hf2 & Hn2 & Hnf2 & Hcl2 & Hsp2).
+  set (s2 := set_owner c t a s1) in *. clearbody s2.
+  unfold Inv.
+  split; [exact HO2|].
+  split; [rewrite Hnf2, Hnf1; exact Hnd|].
+  split.
+  { intros k. rewrite Hnf2, Hnf1. destruct (eq_dec k (c, t)) as [->|Hne].
+    - rewrite Hg2. split; [discriminate|]. intros _. exact Ht.
+    - rewrite (Hf2 k Hne), (Hf1 k Hne). apply Hiff. }
+  split.
+  { intros c'. unfold total_supply, n_tokens. rewrite Hsp2, Hsp1, Hnf2, Hnf1. apply Hsup. }
+  split.
+  { intros c'. rewrite Hn2, Hn1. unfold n_tokens. rewrite Hnf2, Hnf1. fold (n_tokens s c'). rewrite Hidx. lia. }
+  split.
+  { intros c' t'. rewrite Hnf2, Hnf1, Hcl2, Hcl1. apply Hcls. }
+  intros k a'. destruct (eq_dec k (c, t)) as [->|Hne].
+  - rewrite Hg2. intros Heq. inversion Heq; subst. exact Ha.
+  - rewrite (Hf2 k Hne), (Hf1 k Hne). apply Hrng.
+Qed.
+
+Lemma update_inv c t m s : Inv s -> get (c, t) (nfts s) <> None -> Inv (with_nfts s (set (c, t) m (nfts s))).
+Proof.
+  intros (HO & Hnd & Hiff & Hsup & Hidx & Hcls & Hrng) Ht.
+  unfold Inv. simpl.
+  split; [exact HO|].
+  split; [apply keys_set_NoDup; exact Hnd|].
+  split.
+  { intros k. rewrite get_set. destruct (eq_dec k (c, t)) as [->|Hne]; [|apply Hiff].
+    split; [|discriminate]. intros _. apply Hiff. exact Ht. }
+  split; [intros c'; unfold total_supply, n_tokens; simpl; rewrite keys_set_present by exact Ht; apply Hsup|].
+  split; [intros c'; unfold n_tokens; simpl; rewrite keys_set_present by exact Ht; apply Hidx|].
+  split; [|exact Hrng].
+  intros c' t'. rewrite get_set. destruct (eq_dec (c', t') (c, t)) as [Heq|Hne]; [|apply Hcls].
+  inversion Heq; subst. intros _. apply (Hcls c t). exact Ht.
+Qed.
+
+Lemma class_inv c cl s : Inv s -> Inv (with_classes s (set c cl (classes s))).
+Proof.
+  intros (HO & Hnd & Hiff & Hsup & Hidx & Hcls & Hrng).
+  unfold Inv. simpl. repeat (split; [assumption|]). split; [|exact Hrng].
+  intros c' t' Hg. rewrite get_set. destruct (eq_dec c' c); [discriminate|]. apply (Hcls c' t'). exact Hg.
+Qed.
+
+(** ** what a successful message did *)
+Lemma authorize_spec s c t a : authorize s c t a = true <-> get (c, t) (owners s) = Some a.
+Proof.
+  unfold authorize, get_owner. destruct (get (c, t) (owners s)) as [o|]; [|split; discriminate].
+  rewrite Z.eqb_eq. split; congruence.
+Qed.
+
+Lemma addr_ok_spec a : addr_ok a = true <-> 0 <= a.
+Proof. unfold addr_ok. apply Z.leb_le. Qed.
+
+Ltac split_andb H :=
+  repeat match type of H with
+         | _ && _ = true => let H1 := fresh "Hv" in apply andb_prop in H; destruct H as [H H1]
+         end;
+  repeat match goal with Ha : addr_ok _ = true |- _ => apply addr_ok_spec in Ha end.
+
+Lemma issue_ok s a c mr ur d o s' : issue_denom s a c mr ur d o = Some s' ->
+  0 < c /\ 0 <= a /\ get c (classes s) = None /\ s' = with_classes s (set c (a, mr, ur, d, o) (classes s)).
+Proof.
+  unfold issue_denom. destruct ((0 <? c) && addr_ok a && json_or_empty d) eqn:Hv; [|discriminate].
+  split_andb Hv. unfold nk_save_class, has_class. destruct (has c (classes s)) eqn:Hc; [discriminate|].
+  intros Heq. inversion Heq. apply has_false in Hc. apply Z.ltb_lt in Hv. auto.
+Qed.
+
+Lemma mint_ok s a c t n u h d r s' : mint s a c t n u h d r = Some s' ->
+  exists cl, get c (classes s) = Some cl /\ (c_mintr cl = true -> c_creator cl = a)
+             /\ get (c, t) (nfts s) = None /\ 0 <= a /\ 0 <= r /\ s' = mint_state c t (n, u, h, d) r s.
+Proof.
+  unfold mint. destruct (addr_ok a && addr_ok r && denom_ok c && uri_ok u && json_or_empty d && token_ok t) eqn:Hv; [|discriminate].
+  split_andb Hv. destruct (get c (classes s)) as [cl|] eqn:Hc; [|discriminate].
+  destruct (c_mintr cl && negb (c_creator cl =? a)) eqn:Hm; [discriminate|].
+  intros Hk. apply nk_mint_unfold in Hk. destruct Hk as (_ & Ht & ->).
+  exists cl. split; [reflexivity|]. split.
+  { intros Hr. rewrite Hr in Hm. simpl in Hm. apply Bool.negb_false_iff, Z.eqb_eq in Hm. exact Hm. }
+  auto.
+Qed.
+
+Lemma apply_nochange m n u h d : changes n u h d = false -> apply_changes m n u h d = m.
+Proof.
+  unfold changes, modified, apply_changes, modify. destruct m as [[[n0 u0] h0] d0]. intros Hc.
+  apply Bool.orb_false_iff in Hc. destruct Hc as [Hc Hd].
+  apply Bool.orb_false_iff in Hc. destruct Hc as [Hc Hn].
+  apply Bool.orb_false_iff in Hc. destruct Hc as [Hu Hh].
+  apply Bool.negb_false_iff in Hu, Hh, Hn, Hd. rewrite Hu, Hh, Hn, Hd. reflexivity.
+Qed.
+
+Lemma edit_ok s a c t n u h d s' : edit s a c t n u h d = Some s' ->
+  exists cl, get c (classes s) = Some cl /\ c_updr cl = false /\ get (c, t) (owners s) = Some a
+    /\ ((changes n u h d = false /\ s' = s)
+        \/ (exists m, get (c, t) (nfts s) = Some m
+                      /\ s' = with_nfts s (set (c, t) (apply_changes m n u h d) (nfts s)))).
+Proof.
+  unfold edit. destruct (addr_ok a && denom_ok c && uri_ok u && json_or_empty_or_dnm d && token_ok t) eqn:Hv; [|discriminate].
+  destruct (get c (classes s)) as [cl|] eqn:Hc; [|discriminate].
+  destruct (c_updr cl) eqn:Hu; [discriminate|].
+  destruct (authorize s c t a) eqn:Ha; simpl; [|discriminate]. apply authorize_spec in Ha.
+  destruct (changes n u h d) eqn:Hch; simpl.
+  - destruct (get (c, t) (nfts s)) as [m|] eqn:Hm; [|discriminate].
+    intros Hk. apply nk_update_unfold in Hk. destruct Hk as (_ & _ & ->).
+    exists cl. repeat split; auto. right. exists m. auto.
+  - intros Heq. inversion Heq; subst. exists cl. repeat split; auto.
+Qed.
+
+Lemma transfer_ok s a c t n u h d r s' : transfer s a c t n u h d r = Some s' ->
+  exists cl m, get c (classes s) = Some cl /\ get (c, t) (nfts s) = Some m /\ get (c, t) (owners s) = Some a
+    /\ 0 <= r /\ (c_updr cl = true -> changes n u h d = false)
+    /\ ((changes n u h d = false /\ s' = transfer_state c t r s)
+        \/ (s' = transfer_state c t r (with_nfts s (set (c, t) (apply_changes m n u h d) (nfts s))))).
+Proof.
+  unfold transfer. destruct (denom_ok c && addr_ok a && addr_ok r && json_or_empty_or_dnm d && token_ok t) eqn:Hv; [|discriminate].
+  split_andb Hv.
+  destruct (get (c, t) (nfts s)) as [m|] eqn:Hm; [|discriminate].
+  destruct (authorize s c t a) eqn:Ha; simpl; [|discriminate]. apply authorize_spec in Ha.
+  destruct (get c (classes s)) as [cl|] eqn:Hc; [|discriminate].
+  destruct (c_updr cl && changes n u h d) eqn:Hr; [discriminate|].
+  assert (Hupd : c_updr cl = true -> changes n u h d = false) by (intros Hu; rewrite Hu in Hr; exact Hr).
+  destruct (changes n u h d) eqn:Hch; simpl.
+  - destruct (nk_update c t (apply_changes m n u h d) s) as [s1|] eqn:Hk; [|discriminate].
+    apply nk_update_unfold in Hk. destruct Hk as (_ & _ & ->).
+    intros Hk. apply nk_transfer_unfold in Hk. destruct Hk as (_ & _ & ->).
+    exists cl, m. repeat split; auto.
+  - intros Hk. apply nk_transfer_unfold in Hk. destruct Hk as (_ & _ & ->).
+    exists cl, m. repeat split; auto.
+Qed.
+
+Lemma burn_ok s a c t s' : burn s a c t = Some s' ->
+  get (c, t) (owners s) = Some a /\ get (c, t) (nfts s) <> None /\ s' = burn_state c t s.
+Proof.
+  unfold burn. destruct (addr_ok a && denom_ok c && token_ok t); [|discriminate].
+  destruct (authorize s c t a) eqn:Ha; [|discriminate]. apply authorize_spec in Ha.
+  intros Hk. apply nk_burn_unfold in Hk. destruct Hk as (_ & Ht & ->). auto.
+Qed.
+
+Lemma handover_ok s a c r s' : transfer_denom s a c r = Some s' ->
+  exists cl, get c (classes s) = Some cl /\ c_creator cl = a /\ 0 <= r
+             /\ s' = with_classes s (set c (c_with_creator cl r) (classes s)).
+Proof.
+  unfold transfer_denom. destruct (addr_ok a && addr_ok r && denom_ok c) eqn:Hv; [|discriminate].
+  split_andb Hv.
+  destruct (get c (classes s)) as [cl|] eqn:Hc; [|discriminate].
+  destruct (c_creator cl =? a) eqn:Ha; [|discriminate]. apply Z.eqb_eq in Ha.
+  unfold nk_update_class, has_class, has. rewrite Hc. intros Heq. inversion Heq. exists cl. auto.
+Qed.
+
+(** ** the invariant is preserved *)
+Lemma exec_msg_inv s msg s' : Inv s -> exec_msg s msg = Some s' -> Inv s'.
+Proof.
+  intros HI. destruct msg as [a c mr ur d o|a c t n u h d r|a c t n u h d|a c t n u h d r|a c t|a c r]; simpl; intros He.
+  - apply issue_ok in He. destruct He as (_ & _ & _ & ->). apply class_inv. exact HI.
+  - apply mint_ok in He. destruct He as (cl & Hc & _ & Ht & _ & Hr & ->).
+    apply mint_inv; auto. congruence.
+  - apply edit_ok in He. destruct He as (cl & Hc & _ & Ho & [[_ ->]|(m & Hm & ->)]); [exact HI|].
+    apply update_inv; [exact HI|congruence].
+  - apply transfer_ok in He. destruct He as (cl & m & Hc & Hm & Ho & Hr & _ & [[_ ->]| ->]).
+    + apply transfer_inv; auto. congruence.
+    + apply transfer_inv; auto.
+      * apply update_inv; [exact HI|congruence].
+      * simpl. rewrite get_set_same. discriminate.
+  - apply burn_ok in He. destruct He as (_ & Ht & ->). apply burn_inv; assumption.
+  - apply handover_ok in He. destruct He as (cl & _ & _ & _ & ->). apply class_inv. exact HI.
+Qed.
+
+Lemma step_inv s st : Inv s -> Inv (next s st).
+Proof.
+  intros HI. unfold next. destruct st as [m|]; simpl; [|exact HI].
+  destruct (exec_msg s m) as [s'|] eqn:He; [|exact HI]. exact (exec_msg_inv s m s' HI He).
+Qed.
+
+Lemma run_inv steps : forall s, Inv s -> Inv (run s steps).
+Proof. induction steps as [|st rest IH]; intros s HI; simpl; [exact HI|]. apply IH, step_inv, HI. Qed.
+
+Definition Reachable (s : state) : Prop := exists steps, s = run init steps.
+Lemma Reachable_Inv s : Reachable s -> Inv s.
+Proof. intros [steps ->]. apply run_inv, Inv_init. Qed.
